@@ -77,6 +77,16 @@ def product(path, FA, FB):
             a = [sparse.csr_matrix(x) for x in a]
         C = np.stack([np.asarray(x) for x in u.timesQsparse(*a, *b)], axis=-1)
         return C, C.shape[:2]
+    if path == "compInt":        # component planes stored with an integer dtype (values are integers)
+        a = [np.ascontiguousarray(FA[..., c]).astype(np.int64) for c in range(4)]
+        b = [np.ascontiguousarray(FB[..., c]) for c in range(4)]
+        b[0] = b[0].astype(np.int64)
+        C = np.stack([np.asarray(x, dtype=np.float64) for x in u.timesQsparse(*a, *b)], axis=-1)
+        return C, C.shape[:2]
+    if path == "ssInt":          # sparse planes with an integer dtype
+        mk = lambda F: u.SparseQuaternionMatrix(*[sparse.csr_matrix(F[..., c].astype(np.int64)) for c in range(4)], F.shape[:2])
+        C = u.quat_matmat(mk(FA), mk(FB))
+        return _sp_dense(C).astype(np.float64), tuple(C.shape)
     raise KeyError(path)
 
 
@@ -117,7 +127,7 @@ def _replay_state(st):
     expC = np.array(st["out"]["C"], dtype=np.float64) * 2.0 ** (ea + eb)
     fails = []
     n = 0
-    for p in PATHS:
+    for p in PATHS + (["compInt", "ssInt"] if ea == 0 and eb == 0 else []):
         try:
             C, shp = product(p, FA, FB)
             ok = C.shape == expC.shape and np.array_equal(C, expC) and tuple(shp) == expC.shape[:2]
